@@ -429,6 +429,43 @@ fn cli_lookup(rep: &Report, al: &Alpha) {
             }
         }
     });
+    // the entry used as the recipient (-t) has a PublicKey whose checksum does not match, or that is a well-formed
+    // encoding of ANOTHER key: "an encoded public key is usable only if its 4-byte checksum matches" -> decrypt must refuse
+    {
+        let good = rc.pk_enc.clone();
+        let blob = r::b64_decode(&good).unwrap();
+        let mut variants: Vec<(String, String, bool)> = vec![("pristine".into(), good.clone(), true)];
+        for (i, bit) in [(32usize, 0x01u8), (33, 0x80), (35, 0x10), (34, 0xff)] {
+            let mut b = blob.clone();
+            b[i] ^= bit;
+            variants.push((format!("checksum byte {} changed", i - 32), r::b64(&b), false));
+        }
+        {
+            // one key byte changed, checksum left alone (so it does not match either)
+            let mut b = blob.clone();
+            b[5] ^= 0x04;
+            variants.push(("key byte 5 changed, old checksum".into(), r::b64(&b), false));
+        }
+        variants.par_iter().for_each(|(vn, pk, usable)| {
+            rep.eval(1);
+            rep.nontrivial(format!("cli-recipient-{}", vn).as_bytes());
+            let text = format!("{}\n{}", secs[0], crate::proc::keyring_entry("rcpt", pk, Some(&rc.locked)));
+            let sc = Scratch::new();
+            sc.write("kr.txt", text.as_bytes());
+            sc.write("m.ktl", &files[0]);
+            let out = proc::run(&Cmd::new(&["decrypt", "m.ktl", "-t", "rcpt", "-k", "kr.txt", "-o", "out.bin", "--env-pass"]).env("KESTREL_PASSWORD", "rcpt-pw"), &sc.0);
+            let case = json!({"kind":"cli-lookup","recipient_variant":vn});
+            if let Err(e) = out.well_behaved() {
+                rep.violation("cli-lookup/ill-behaved", case, e);
+            } else if out.ok() != *usable {
+                rep.violation(
+                    if *usable { "cli-lookup/pristine-recipient-refused" } else { "cli-lookup/recipient-key-with-bad-checksum-used" },
+                    case,
+                    format!("kestrel decrypt -t rcpt where the rcpt entry's PublicKey is [{}]: exit {:?} ({})", vn, out.code, if *usable { "should work" } else { "an encoded public key whose checksum does not match must not be usable" }),
+                );
+            }
+        });
+    }
     rep.extra("cli_lookup", json!({"sections":n,"max_sections":depth,"keyrings":seqs.len(),"decrypt_runs":runs.load(Ordering::Relaxed)}));
 }
 
